@@ -1,18 +1,22 @@
 /-
   C20 — C++ class expressions equal the C functions.
 
-  `fnobj_spec_z`     every modelled mpz function object of mpirxx.h (`__gmp_binary_plus/minus/multiplies/
-                     divides/modulus/and/ior/xor`, `__gmp_gcd_function`, `__gmp_lcm_function`, with their
-                     ui / si / double overloads on either side, the `__builtin_constant_p` fast paths, the
-                     unary objects and the shifts) computes its operator for every alias pattern of its
-                     pointer arguments and every built-in value in range.
-  `evalZ_correct`    the expression-template strategy (which `__gmp_expr<…>::eval(p)` specialisation runs,
-                     when a temporary is introduced) on mpz-typed trees equals evaluation of every
-                     sub-expression into its own temporary — by induction over the tree, for every
-                     destination (also one occurring in the tree) and every heap.
-  `expr_eval_correct_partial`  the statement-level form `z_t = e`.
+  Model (lean/Mpir/Model/Cxx.lean): `evalTmp` = every sub-expression into its own temporary with the C
+  function (exact Int / canonical Rat arithmetic); `evalZ` / `evalQ` / `execAssign` = what mpirxx.h does:
+  the `__gmp_expr<…>::eval(p)` specialisation chosen by the operand shapes (when a temporary is
+  introduced because `p` aliases an operand, the mpz±mpq special cases, conversions evaluated into the
+  numerator field) on top of the function objects `__gmp_binary_*`/`__gmp_unary_*` transcribed overload by
+  overload (ui / si / double fast paths, `__builtin_constant_p` as an arbitrary Boolean).
+
+  `fnobj_spec_z`, `fnobj_spec_q`   every modelled function object computes its operator, for every alias
+                                   pattern of its pointer arguments and every built-in value in range.
+  `expr_eval_correct_partial`      `target = e` / `target op= r` through the templates = `assign target
+                                   (evalTmp env e)`, by induction over the tree (lemmas `evalZ_correct`,
+                                   `evalQ_correct`), for mpz and mpq targets and mixed mpz/mpq trees.
+  `cmp_eval_correct_partial`       comparisons / `cmp` on mpz-typed operands.
+  Not covered by theorems (correspondence only): mpf_class, comparisons with mpq operands, `sgn`, I/O.
 -/
-import MpirProofs.Lemmas.Cxx
+import MpirProofs.Lemmas.CxxQ2
 namespace Mpir.Cxx
 
 /-- **fnobj_spec** for the binary mpz function objects (see `fnBinZ_spec` for the proof). -/
@@ -28,328 +32,142 @@ example : (fnBinZ false .sub (.v 0) (.bi (.si LONG_MIN)) (.loc (.v 0)) ⟨fun _ 
 example : (fnBinZ true .div (.v 1) (.bi (.si LONG_MIN)) (.loc (.v 0)) ⟨fun _ => -1⟩).map (· (.v 1)) = some 9223372036854775808 := by
   decide
 
-theorem fnBinZ_ll (cst : Bool) (o : Bin) (p w v : ZLoc) (h : Heap) :
-    fnBinZ cst o p (.loc w) (.loc v) h = (binZ o (h w) (h v)).map (fun r => h.set p r) := by
-  rw [fnBinZ_spec cst o p (.loc w) (.loc v) h trivial trivial (by simp [ZArg.isBi])]; rfl
 
-theorem fnBinZ_lb (cst : Bool) (o : Bin) (p w : ZLoc) (c : Bi) (h : Heap) (hc : c.ok = true) :
-    fnBinZ cst o p (.loc w) (.bi c) h = ((biZ c).bind fun y => binZ o (h w) y).map (fun r => h.set p r) := by
-  rw [fnBinZ_spec cst o p (.loc w) (.bi c) h trivial hc (by simp [ZArg.isBi])]; rfl
+/-- **fnobj_spec** for the binary mpq function objects (`__gmp_binary_plus/minus/multiplies/divides` with
+    mpq, mpz (for ±), ui, si and double operands on either side): for canonical operands, every alias
+    pattern of destination and operands, every built-in value in range and both answers of
+    `__builtin_constant_p`, the object stores the canonical `a op b` into `p` and changes nothing else,
+    or raises exactly when the C function on temporaries raises.  This includes the overloads that poke
+    numerator and denominator separately (`q ± ui/si/z`: `num ± den*l`, no canonicalisation needed). -/
+theorem fnobj_spec_q (cst : Bool) (o : Bin) (p : Nat) (a b : QArg) (h : Heap)
+    (hd : fnQdefined o a b) (ca : a.canon h) (cb : b.canon h) (oka : a.ok) (okb : b.ok) :
+    fnBinQ cst o p a b h =
+      ((argR h a).bind fun x => (argR h b).bind fun y => binQ o x y).map (fun r => h.setQ p r) :=
+  fnBinQ_spec cst o p a b h hd ca cb oka okb
 
-theorem fnBinZ_bl (cst : Bool) (o : Bin) (p : ZLoc) (c : Bi) (w : ZLoc) (h : Heap) (hc : c.ok = true) :
-    fnBinZ cst o p (.bi c) (.loc w) h = ((biZ c).bind fun x => binZ o x (h w)).map (fun r => h.set p r) := by
-  rw [fnBinZ_spec cst o p (.bi c) (.loc w) h hc trivial (by simp [ZArg.isBi])]
-  simp only [argZ, Option.bind_some]
+-- non-vacuity: `q0 = 5 - q0` with q0 = 7/3 (destination aliased, the `eval(q, r, l); mpq_neg(q, q)` path) gives 8/3
+example : (fnBinQ false .sub 0 (.bi (.si 5)) (.q 0) ⟨fun l => match l with | .num 0 => 7 | .den 0 => 3 | _ => 1⟩).map
+    (fun h => (h (.num 0), h (.den 0))) = some (8, 3) := by decide
 
-theorem wt_bin_z {o : Bin} {a b : E} (hty : (E.bin o a b).ty = .z) (hwt : (E.bin o a b).wt = true) :
-    a.ty = .z ∧ b.ty = .z ∧ a.wt = true ∧ b.wt = true := by
-  simp only [E.ty] at hty
-  have h2 : a.ty = .z ∧ b.ty = .z := by
-    by_cases hc : a.ty = .z ∧ b.ty = .z
-    · exact hc
-    · simp [hc] at hty
-  simp only [E.wt, Bool.and_eq_true] at hwt
-  exact ⟨h2.1, h2.2, hwt.1.1, hwt.1.2⟩
-
-/-- **The template strategy is evaluation into temporaries** (mpz-typed trees): for every well-typed
-    tree `e`, every destination object `p` that exists before the evaluation (in particular one that
-    occurs in `e`), every heap and both answers of `__builtin_constant_p`: `evalZ` raises exactly when
-    the temporaries semantics raises, otherwise `p` ends with the value `evalTmp` gives and every other
-    pre-existing object is unchanged. -/
-theorem evalZ_correct (cst : Bool) : ∀ (e : E), e.ty = .z → e.wt = true →
-    ∀ (k : Nat) (p : ZLoc) (h : Heap), p.below k → e.zbelow k →
-      Post k p h (evalTmpZ (fun i => h (.v i)) e) (evalZ cst k p e h) := by
-  intro e
-  induction e with
-  | zv i =>
-    intro _ _ k p h _ _
-    simp only [evalZ, evalTmpZ, mpz_set]
-    exact Post.of_set (r := some (h (.v i)))
-  | qv i => intro hty; simp [E.ty] at hty
-  | un o a ih =>
-    intro hty hwt k p h hp hb
-    simp only [E.ty] at hty
-    simp only [E.wt, Bool.and_eq_true] at hwt
-    simp only [E.zbelow] at hb
-    simp only [evalZ, evalTmpZ]
-    cases hl : a.zleaf? with
-    | some i =>
-      have := zleaf?_some hl; subst this
-      simp only [evalTmpZ, Option.bind_some, fnUnZ_spec]
-      exact Post.of_set
-    | none =>
-      simp only []
-      have IH := ih hty hwt.1 k p h hp hb
-      cases hr : evalTmpZ (fun i => h (.v i)) a with
-      | none => rw [hr] at IH; simp only [Post] at IH; simp [IH, Post]
+/-- **expr_eval_correct** (`_partial`: the mpz and mpq fragment of the property; mpf_class expressions are
+    compared implementation-vs-implementation by the correspondence run only).
+    A whole assignment `target = e;` — target an `mpz_class` or `mpq_class` variable that may occur anywhere
+    in `e`; `e` any well-typed tree over mpz/mpq variables, sub-expressions and built-ins on either side, of
+    either type (so the conversions `mpz_set_q` / `mpq_set_z` at the assignment are included) — as evaluated by
+    mpirxx.h's templates (`execAssign`), for both answers of `__builtin_constant_p`: it raises iff evaluation
+    into temporaries raises, and otherwise the heap denotes exactly `assign target (evalTmp env e)`: the
+    target holds the (converted, canonical) value, every other mpz and mpq variable is unchanged.
+    Compound assignments `target op= r` are the same theorem applied to `expand op target r`, which is the
+    tree mpirxx.h's operator builds (mpirxx.h:3171–3189) — except `mpz_class op= mpq-typed`, where the
+    operator converts the operand first (the known finding `compound-mixed-type`; `Stmt.wt` excludes it). -/
+theorem expr_eval_correct_partial (cst : Bool) (K : Nat) (t : Ty) (i : Nat) (e : E) (h : Heap)
+    (hwt : e.wt = true) (hi : i < K) (hz : e.zbelow K) (hq : e.qbelow K) (hc : e.canon h) :
+    match evalTmp h.abs e with
+    | none => execAssign cst K t i e h = none
+    | some v => ∃ h', execAssign cst K t i e h = some h' ∧
+        (∀ j, j < K → h'.abs.z j = (assign h.abs t i v).z j) ∧
+        (∀ j, j < K → h'.abs.q j = (assign h.abs t i v).q j) ∧
+        (∀ j, j < K → Canon h j → Canon h' j) ∧ (t = .q → Canon h' i) := by
+  cases t with
+  | z =>
+    by_cases hty : e.ty = .z
+    · -- mpz tree into an mpz target
+      simp only [execAssign, hty, if_true]
+      have H := evalZ_correct cst e hty hwt K (.v i) h (by simpa [ZLoc.below] using hi) hz
+      rw [evalTmp_z _ e hty]
+      show match (evalTmpZ (fun i => h (.v i)) e).map Val.z with | none => _ | some v => _
+      cases hr : evalTmpZ (fun i => h (.v i)) e with
+      | none => rw [hr] at H; simpa [Post] using H
       | some x =>
-        rw [hr] at IH
-        obtain ⟨h1, e1, hx, hfr⟩ := IH
-        simp only [e1, Option.bind_some, fnUnZ_spec, hx]
-        cases hu : unZ o x with
-        | none => simp [Post]
-        | some r =>
-          refine ⟨_, rfl, by simp, fun l hl hne => ?_⟩
-          try dsimp only
-          rw [Heap.set_get_ne _ _ _ _ hne]; exact hfr l hl hne
-  | bin o a b iha ihb =>
-    intro hty hwt k p h hp hb
-    obtain ⟨hta, htb, hwa, hwb⟩ := wt_bin_z hty hwt
-    simp only [E.zbelow] at hb
-    simp only [evalZ, evalTmpZ]
-    cases hla : a.zleaf? with
-    | some i =>
-      have := zleaf?_some hla; subst this
-      cases hlb : b.zleaf? with
-      | some j =>
-        have := zleaf?_some hlb; subst this
-        simp only [evalTmpZ, Option.bind_some]
-        rw [fnBinZ_ll]
-        exact Post.of_set
-      | none =>
-        simp only [evalTmpZ, Option.bind_some]
-        by_cases hpi : p ≠ .v i
-        · simp only [hpi, ne_eq, not_false_eq_true, if_true]
-          have IH := ihb htb hwb k p h hp hb.2
-          cases hr : evalTmpZ (fun i => h (.v i)) b with
-          | none => rw [hr] at IH; simp only [Post] at IH; simp [IH, Post]
-          | some y =>
-            rw [hr] at IH
-            obtain ⟨h1, e1, hy, hfr⟩ := IH
-            simp only [e1, Option.bind_some]
-            rw [fnBinZ_ll]
-            have hi : h1 (.v i) = h (.v i) := hfr _ (by simpa [ZLoc.below, E.zbelow] using hb.1) (Ne.symm hpi)
-            simp only [hy, hi]
-            cases hu : binZ o (h (.v i)) y with
-            | none => simp [Post]
-            | some r =>
-              refine ⟨_, rfl, by simp, fun l hl hne => ?_⟩
-              try dsimp only
-              rw [Heap.set_get_ne _ _ _ _ hne]; exact hfr l hl hne
-        · have hpe : p = .v i := by simpa using hpi
-          simp only [hpi, if_false]
-          have IH := ihb htb hwb (k + 1) (.v k) h (by simp [ZLoc.below]) (E.zbelow_mono (by omega) _ hb.2)
-          cases hr : evalTmpZ (fun i => h (.v i)) b with
-          | none => rw [hr] at IH; simp only [Post] at IH; simp [IH, Post]
-          | some y =>
-            rw [hr] at IH
-            obtain ⟨h1, e1, hy, hfr⟩ := IH
-            simp only [e1, Option.bind_some]
-            rw [fnBinZ_ll]
-            have hi : h1 (.v i) = h (.v i) :=
-              hfr _ (by simp only [ZLoc.below]; simp only [E.zbelow] at hb; omega) (by intro e; injection e with e; simp only [E.zbelow] at hb; omega)
-            simp only [hy, hi]
-            cases hu : binZ o (h (.v i)) y with
-            | none => simp [Post]
-            | some r =>
-              refine ⟨_, rfl, by simp, fun l hl hne => ?_⟩
-              try dsimp only
-              rw [Heap.set_get_ne _ _ _ _ hne]
-              exact hfr l (ZLoc.below_mono (by omega) hl) (ZLoc.ne_of_below hl)
-    | none =>
-      cases hlb : b.zleaf? with
-      | some j =>
-        have := zleaf?_some hlb; subst this
-        simp only [evalTmpZ]
-        by_cases hpj : p ≠ .v j
-        · simp only [hpj, ne_eq, not_false_eq_true, if_true]
-          have IH := iha hta hwa k p h hp hb.1
-          cases hr : evalTmpZ (fun i => h (.v i)) a with
-          | none => rw [hr] at IH; simp only [Post] at IH; simp [IH, Post]
-          | some x =>
-            rw [hr] at IH
-            obtain ⟨h1, e1, hx, hfr⟩ := IH
-            simp only [e1, Option.bind_some]
-            rw [fnBinZ_ll]
-            have hj : h1 (.v j) = h (.v j) := hfr _ (by simpa [ZLoc.below, E.zbelow] using hb.2) (Ne.symm hpj)
-            simp only [hx, hj]
-            cases hu : binZ o x (h (.v j)) with
-            | none => simp [Post]
-            | some r =>
-              refine ⟨_, rfl, by simp, fun l hl hne => ?_⟩
-              try dsimp only
-              rw [Heap.set_get_ne _ _ _ _ hne]; exact hfr l hl hne
-        · simp only [hpj, if_false]
-          have IH := iha hta hwa (k + 1) (.v k) h (by simp [ZLoc.below]) (E.zbelow_mono (by omega) _ hb.1)
-          cases hr : evalTmpZ (fun i => h (.v i)) a with
-          | none => rw [hr] at IH; simp only [Post] at IH; simp [IH, Post]
-          | some x =>
-            rw [hr] at IH
-            obtain ⟨h1, e1, hx, hfr⟩ := IH
-            simp only [e1, Option.bind_some]
-            rw [fnBinZ_ll]
-            have hj : h1 (.v j) = h (.v j) :=
-              hfr _ (by simp only [ZLoc.below]; simp only [E.zbelow] at hb; omega) (by intro e; injection e with e; simp only [E.zbelow] at hb; omega)
-            simp only [hx, hj]
-            cases hu : binZ o x (h (.v j)) with
-            | none => simp [Post]
-            | some r =>
-              refine ⟨_, rfl, by simp, fun l hl hne => ?_⟩
-              try dsimp only
-              rw [Heap.set_get_ne _ _ _ _ hne]
-              exact hfr l (ZLoc.below_mono (by omega) hl) (ZLoc.ne_of_below hl)
+        rw [hr] at H
+        obtain ⟨h', e1, hx, hfr⟩ := H
+        refine ⟨h', e1, fun j hj => ?_, fun j _ => ?_, fun j _ hcj => ?_, fun ht => by cases ht⟩
+        · simp only [Heap.abs, assign, conv, Env.set]
+          by_cases hit : j = i
+          · subst hit; simp [hx]
+          · simp only [hit, if_false]
+            exact hfr _ (by simpa [ZLoc.below] using hj) (by intro e; injection e with e; exact hit e)
+        · simp only [Heap.abs, assign, conv, Env.set, qval]
+          rw [hfr (.num j) trivial (by intro e; cases e), hfr (.den j) trivial (by intro e; cases e)]
+        · unfold Canon at *
+          rw [hfr (.num j) trivial (by intro e; cases e), hfr (.den j) trivial (by intro e; cases e)]; exact hcj
+    · -- mpq tree into an mpz target: `mpq_class const& temp(expr); mpz_set_q(z, temp)`
+      have htq := ty_q_of_ne_z hty
+      simp only [execAssign, hty, if_false, assignZfromQ]
+      cases hl : e.qleaf? with
+      | some r =>
+        have := qleaf?_some hl; subst this
+        simp only [evalTmp]
+        refine ⟨_, rfl, fun j hj => ?_, fun j _ => ?_, fun j _ hcj => ?_, fun ht => by cases ht⟩
+        · simp only [Heap.abs, assign, conv, Env.set, mpz_set_q, Heap.set]
+          by_cases hit : j = i <;> simp [hit]
+        · simp only [Heap.abs, assign, conv, Env.set, qval, mpz_set_q]
+          rw [Heap.set_get_ne _ _ (.num j) _ (by simp), Heap.set_get_ne _ _ (.den j) _ (by simp)]
+        · unfold Canon at *; simp only [mpz_set_q]
+          rw [Heap.set_get_ne _ _ (.num j) _ (by simp), Heap.set_get_ne _ _ (.den j) _ (by simp)]; exact hcj
       | none =>
         simp only []
-        -- temp2 := b ; a.eval(p) ; Op::eval(p, p, temp2)
-        have IHb := ihb htb hwb (k + 1) (.v k) h (by simp [ZLoc.below]) (E.zbelow_mono (by omega) _ hb.2)
-        cases hrb : evalTmpZ (fun i => h (.v i)) b with
-        | none =>
-          rw [hrb] at IHb; simp only [Post] at IHb
-          cases evalTmpZ (fun i => h (.v i)) a <;> simp [IHb, Post]
-        | some y =>
-          rw [hrb] at IHb
-          obtain ⟨h1, e1, hy, hfr1⟩ := IHb
-          simp only [e1, Option.bind_some]
-          have hag : ∀ i, i < k → h1 (.v i) = h (.v i) := fun i hi =>
-            hfr1 _ (by simp only [ZLoc.below]; omega) (by intro e; injection e with e; omega)
-          have IHa := iha hta hwa (k + 1) p h1 (ZLoc.below_mono (by omega) hp) (E.zbelow_mono (by omega) _ hb.1)
-          rw [evalTmpZ_frame hag a hb.1] at IHa
-          cases hra : evalTmpZ (fun i => h (.v i)) a with
-          | none => rw [hra] at IHa; simp only [Post] at IHa; simp [IHa, Post]
-          | some x =>
-            rw [hra] at IHa
-            obtain ⟨h2, e2, hx, hfr2⟩ := IHa
-            simp only [e2, Option.bind_some]
-            rw [fnBinZ_ll]
-            have hk : h2 (.v k) = y := by
-              rw [hfr2 _ (by simp [ZLoc.below]) (Ne.symm (ZLoc.ne_of_below hp)), hy]
-            simp only [hx, hk]
-            cases hu : binZ o x y with
-            | none => simp [Post]
-            | some r =>
-              refine ⟨_, rfl, by simp, fun l hl hne => ?_⟩
-              try dsimp only
-              rw [Heap.set_get_ne _ _ _ _ hne, hfr2 l (ZLoc.below_mono (by omega) hl) hne]
-              exact hfr1 l (ZLoc.below_mono (by omega) hl) (ZLoc.ne_of_below hl)
-  | binL o c b ih =>
-    intro hty hwt k p h hp hb
-    simp only [E.ty] at hty
-    simp only [E.wt, Bool.and_eq_true] at hwt
-    simp only [E.zbelow] at hb
-    simp only [evalZ, evalTmpZ]
-    cases hl : b.zleaf? with
-    | some j =>
-      have := zleaf?_some hl; subst this
-      simp only [evalTmpZ, Option.bind_some]
-      rw [fnBinZ_bl _ _ _ _ _ _ hwt.1.1]
-      cases biZ c with
-      | none => simp [Post]
-      | some x => simp only [Option.bind_some]; exact Post.of_set
-    | none =>
-      simp only []
-      have IH := ih hty hwt.1.2 k p h hp hb
-      cases hr : evalTmpZ (fun i => h (.v i)) b with
-      | none => rw [hr] at IH; simp only [Post] at IH; simp [IH, Post]
-      | some y =>
-        rw [hr] at IH
-        obtain ⟨h1, e1, hy, hfr⟩ := IH
-        simp only [e1, Option.bind_some]
-        rw [fnBinZ_bl _ _ _ _ _ _ hwt.1.1]
-        simp only [hy]
-        cases biZ c with
-        | none => simp [Post]
-        | some x =>
-          simp only [Option.bind_some]
-          cases hu : binZ o x y with
-          | none => simp [Post]
-          | some r =>
-            refine ⟨_, rfl, by simp, fun l hl hne => ?_⟩
-            try dsimp only
-            rw [Heap.set_get_ne _ _ _ _ hne]; exact hfr l hl hne
-  | binR o a c ih =>
-    intro hty hwt k p h hp hb
-    simp only [E.ty] at hty
-    simp only [E.wt, Bool.and_eq_true] at hwt
-    simp only [E.zbelow] at hb
-    simp only [evalZ, evalTmpZ]
-    cases hl : a.zleaf? with
-    | some i =>
-      have := zleaf?_some hl; subst this
-      simp only [evalTmpZ, Option.bind_some]
-      rw [fnBinZ_lb _ _ _ _ _ _ hwt.1.1]
-      exact Post.of_set
-    | none =>
-      simp only []
-      have IH := ih hty hwt.1.2 k p h hp hb
-      cases hr : evalTmpZ (fun i => h (.v i)) a with
-      | none => rw [hr] at IH; simp only [Post] at IH; simp [IH, Post]
-      | some x =>
-        rw [hr] at IH
-        obtain ⟨h1, e1, hx, hfr⟩ := IH
-        simp only [e1, Option.bind_some]
-        rw [fnBinZ_lb _ _ _ _ _ _ hwt.1.1]
-        simp only [hx]
-        cases hu : (biZ c).bind fun y => binZ o x y with
-        | none => simp [Post]
-        | some r =>
-          refine ⟨_, rfl, by simp, fun l hl hne => ?_⟩
-          try dsimp only
-          rw [Heap.set_get_ne _ _ _ _ hne]; exact hfr l hl hne
-  | sh o a n ih =>
-    intro hty hwt k p h hp hb
-    simp only [E.ty] at hty
-    simp only [E.wt, Bool.and_eq_true] at hwt
-    simp only [E.zbelow] at hb
-    simp only [evalZ, evalTmpZ]
-    cases hl : a.zleaf? with
-    | some i =>
-      have := zleaf?_some hl; subst this
-      simp only [evalTmpZ, Option.map_some, fnShZ_spec]
-      exact Post.of_set (r := some _)
-    | none =>
-      simp only []
-      have IH := ih hty hwt.1 k p h hp hb
-      cases hr : evalTmpZ (fun i => h (.v i)) a with
-      | none => rw [hr] at IH; simp only [Post] at IH; simp [IH, Post]
-      | some x =>
-        rw [hr] at IH
-        obtain ⟨h1, e1, hx, hfr⟩ := IH
-        simp only [e1, Option.bind_some, fnShZ_spec, hx, Option.map_some]
-        refine ⟨_, rfl, by simp, fun l hl hne => ?_⟩
-        try dsimp only
-        rw [Heap.set_get_ne _ _ _ _ hne]; exact hfr l hl hne
+        have H := evalQ_correct cst e hwt (K + 1) K h (by omega) (E.zbelow_mono (by omega) _ hz) (E.qbelow_mono (by omega) _ hq) hc
+        unfold evalTmpR at H
+        cases hr : evalTmp h.abs e with
+        | none => rw [hr] at H; simpa [PostQ] using H
+        | some v =>
+          obtain ⟨r, rfl⟩ := val_of_ty_q ((evalTmp_ty _ e v hr).trans htq)
+          rw [hr] at H
+          obtain ⟨h1, e1, _, hx, hfr⟩ := H
+          have hag : AgreeBelow K h h1 := agree_of_PostQ_temp hfr
+          simp only [Option.map_some, Val.toQ] at hx
+          refine ⟨_, by rw [e1]; rfl, fun j hj => ?_, fun j hj => ?_, fun j hj hcj => ?_, fun ht => by cases ht⟩
+          · simp only [Heap.abs, assign, conv, Env.set, mpz_set_q, Heap.set, hx]
+            by_cases hit : j = i
+            · simp [hit]
+            · have : (ZLoc.v j) ≠ .v i := by intro e; injection e with e; exact hit e
+              simp only [this, hit, if_false]; exact hag (.v j) hj
+          · simp only [Heap.abs, assign, conv, Env.set, qval, mpz_set_q]
+            rw [Heap.set_get_ne _ _ (.num j) _ (by simp), Heap.set_get_ne _ _ (.den j) _ (by simp), hag (.num j) hj, hag (.den j) hj]
+          · unfold Canon at *; simp only [mpz_set_q]
+            rw [Heap.set_get_ne _ _ (.num j) _ (by simp), Heap.set_get_ne _ _ (.den j) _ (by simp), hag (.num j) hj, hag (.den j) hj]; exact hcj
+  | q =>
+    simp only [execAssign]
+    have H := evalQ_correct cst e hwt K i h hi hz hq hc
+    unfold evalTmpR at H
+    cases hr : evalTmp h.abs e with
+    | none => rw [hr] at H; simpa [PostQ] using H
+    | some v =>
+      rw [hr] at H
+      obtain ⟨h', e1, hci, hx, hfr⟩ := H
+      try simp only [Option.map_some] at hx
+      refine ⟨h', e1, fun j hj => ?_, fun j hj => ?_, fun j hj hcj => ?_, fun _ => hci⟩
+      · have : (assign h.abs .q i v).z j = h (.v j) := by cases v <;> rfl
+        rw [this]; exact hfr (.v j) hj (by simp) (by simp)
+      · have : (assign h.abs .q i v).q j = if j = i then v.toQ else qval h j := by cases v <;> rfl
+        rw [this]
+        by_cases hji : j = i
+        · subst hji; simp only [if_true, Heap.abs]; exact hx
+        · have hn : (ZLoc.num j) ≠ .num i := by intro e; injection e with e; exact hji e
+          have hd : (ZLoc.den j) ≠ .den i := by intro e; injection e with e; exact hji e
+          simp only [hji, if_false, Heap.abs, qval]
+          rw [hfr (.num j) hj hn (by simp), hfr (.den j) hj (by simp) hd]
+      · by_cases hji : j = i
+        · subst hji; exact hci
+        · have hn : (ZLoc.num j) ≠ .num i := by intro e; injection e with e; exact hji e
+          have hd : (ZLoc.den j) ≠ .den i := by intro e; injection e with e; exact hji e
+          unfold Canon at *
+          rw [hfr (.num j) hj hn (by simp), hfr (.den j) hj (by simp) hd]; exact hcj
 
-
-/-- **expr_eval_correct (mpz fragment; `_partial`: the full statement also covers mpq-typed trees, the
-    conversions at the assignment, comparisons and mpf — those are tied by the correspondence run only).**
-    `z_t = e;` for a well-typed mpz tree `e` over the variables `z_0 … z_{K-1}` (the target `z_t` may occur
-    anywhere in `e`): the statement as evaluated by mpirxx.h's templates raises iff evaluation into
-    temporaries raises, and otherwise leaves exactly `assign target (evalTmp env e)`: `z_t` holds the
-    value, every other mpz variable and every mpq variable is unchanged.  The same theorem covers the
-    compound assignments `z_t op= r`, whose operator builds the tree `expand op z t r` with `z_t` as left
-    leaf and evaluates it into `z_t` (mpirxx.h:3171–3189). -/
-theorem expr_eval_correct_partial (cst : Bool) (K t : Nat) (e : E) (h : Heap)
-    (hty : e.ty = .z) (hwt : e.wt = true) (ht : t < K) (hb : e.zbelow K) :
-    match evalTmp h.abs e with
-    | none => evalZ cst K (.v t) e h = none
-    | some v => ∃ h', evalZ cst K (.v t) e h = some h' ∧
-        (∀ i, i < K → h'.abs.z i = (assign h.abs .z t v).z i) ∧ (∀ i, h'.abs.q i = (assign h.abs .z t v).q i) := by
-  have H := evalZ_correct cst e hty hwt K (.v t) h (by simpa [ZLoc.below] using ht) hb
-  rw [evalTmp_z _ e hty]
-  show match (evalTmpZ (fun i => h (.v i)) e).map Val.z with | none => _ | some v => _
-  cases hr : evalTmpZ (fun i => h (.v i)) e with
-  | none => rw [hr] at H; simpa [Post] using H
-  | some x =>
-    rw [hr] at H
-    obtain ⟨h', e1, hx, hfr⟩ := H
-    refine ⟨h', e1, fun i hi => ?_, fun i => ?_⟩
-    · simp only [Heap.abs, assign, conv, Env.set]
-      by_cases hit : i = t
-      · subst hit; simp [hx]
-      · simp only [hit, if_false]
-        exact hfr _ (by simpa [ZLoc.below] using hi) (by intro e; injection e with e; exact hit e)
-    · simp only [Heap.abs, assign, conv, Env.set, qval]
-      rw [hfr (.num i) trivial (by intro e; cases e), hfr (.den i) trivial (by intro e; cases e)]
-
--- non-vacuity: `z0 = z1 - z0 * 3` (the target inside the tree) with z0 = 5, z1 = 7 gives -8; and the
--- strategy really introduces a temporary for `z0 = z0 - (z1 * z0)`.
+-- non-vacuity: `z0 = z1 - z0 * 3` (target inside the tree) with z0 = 5, z1 = 7 gives -8; the strategy really
+-- introduces a temporary for `z0 = z0 - (z1 * z0)`; an exception of the temporaries semantics is an exception here.
 example : (evalZ false 4 (.v 0) (.bin .sub (.zv 1) (.binR .mul (.zv 0) (.si 3)))
     ⟨fun l => match l with | .v 0 => 5 | .v 1 => 7 | _ => 1⟩).map (· (.v 0)) = some (-8) := by decide
 example : (evalZ false 4 (.v 0) (.bin .sub (.zv 0) (.bin .mul (.zv 1) (.zv 0)))
     ⟨fun l => match l with | .v 0 => 5 | .v 1 => 7 | _ => 1⟩).map (fun h => (h (.v 0), h (.v 4))) = some (-30, 35) := by decide
--- an exception of the temporaries semantics is an exception of the strategy: `z0 = z1 / (z0 - z0)`
 example : evalZ true 4 (.v 0) (.bin .div (.zv 1) (.bin .sub (.zv 0) (.zv 0))) ⟨fun _ => 3⟩ = none := by decide
-
+-- `q0 = z0 - q0 * 2` with q0 = 1/2, z0 = 3 (mixed mpz/mpq special case, destination aliased) gives 2/1
+example : (execAssign false 4 .q 0 (.bin .sub (.zv 0) (.binR .mul (.qv 0) (.si 2)))
+    ⟨fun l => match l with | .v 0 => 3 | .num 0 => 1 | .den 0 => 2 | _ => 1⟩).map (fun h => (h (.num 0), h (.den 0))) = some (2, 1) := by decide +kernel
+-- `z1 = q0 * q0` with q0 = -7/2: 49/4 truncates to 12
+example : (execAssign true 4 .z 1 (.bin .mul (.qv 0) (.qv 0))
+    ⟨fun l => match l with | .num 0 => -7 | .den 0 => 2 | _ => 1⟩).map (· (.v 1)) = some 12 := by decide +kernel
 
 /-! ### comparisons, `cmp`, `sgn` on mpz-typed operands -/
 
@@ -362,12 +180,13 @@ theorem opndRat_ex_z (h : Heap) (e : E) (hty : e.ty = .z) :
   simp only [opndRat, evalTmp_z _ e hty, Option.map_map]
   rfl
 
-/-- **Comparisons equal the C comparison of the temporaries** (`== != < <= > >=`, `cmp`; mpz-typed
-    operands and built-ins on either side): the `const&` binding strategy (no temporary for an
+/-- **Comparisons equal the C comparison of the temporaries** (`== != < <= > >=`, `cmp`; `_partial`: mpz-typed
+    operands and built-ins on either side — comparisons with mpq/mpf operands are tied by the correspondence
+    run only): the `const&` binding strategy (no temporary for an
     `mpz_class` operand, one temporary per expression operand) followed by the
     `__gmp_binary_equal/less/greater/__gmp_cmp_function` overload gives exactly
     `execTmp (.cmp o a b)`, including raising when an operand raises. -/
-theorem cmp_eval_correct_z (cst : Bool) (K : Nat) (o : Cmp) (a b : Opnd) (h : Heap)
+theorem cmp_eval_correct_partial (cst : Bool) (K : Nat) (o : Cmp) (a b : Opnd) (h : Heap)
     (ha : a.zOk K) (hb : b.zOk K) (hab : ¬(∃ c c', a = .bi c ∧ b = .bi c')) :
     (execCmpZ cst K o a b h).map Res.int = execTmp h.abs (.cmp o a b) := by
   have B := bindZ_correct cst (evalZ_correct cst)
@@ -429,5 +248,6 @@ theorem cmp_eval_correct_z (cst : Bool) (K : Nat) (o : Cmp) (a b : Opnd) (h : He
 -- non-vacuity: `(z0 + z1) < 2.5` with z0 = 1, z1 = 1 is true (mpz_cmp_d does not truncate the double); `-3 > z0 * z1`
 example : execCmpZ false 4 .lt (.ex (.bin .add (.zv 0) (.zv 1))) (.bi (.d 0x4004000000000000)) ⟨fun _ => 1⟩ = some 1 := by decide
 example : execCmpZ true 4 .gt (.bi (.si (-3))) (.ex (.bin .mul (.zv 0) (.zv 1))) ⟨fun l => if l = .v 0 then -2 else 2⟩ = some 1 := by decide
+
 
 end Mpir.Cxx
